@@ -99,6 +99,9 @@ func envTextFor(r *Rng, o *OptSpec) string {
 		if len(o.Choices) > 0 {
 			return r.Pick(o.Choices)
 		}
+		if (baseKind(k) == "string" || k == "filename") && !isMapKind(k) && r.Chance(1, 6) {
+			return r.Pick([]string{"-O2", "-->", "--x", "-", "-1"}) // option-looking text is ordinary data in the environment
+		}
 		if isMapKind(k) {
 			return genPlainText(r, mapKeyKind(k)) + ":" + genPlainText(r, elemKind(k))
 		}
@@ -120,7 +123,7 @@ func (propC05) Gen(r *Rng, idx int, tier string) *Scenario {
 	sc.Decl = c05Decl(r)
 	sc.World = WorldSpec{Cols: 80, Now: 1700000000, Env: map[string]BStr{}}
 	p := sc.C05
-	p.Shape = r.Fork("shape").Pick([]string{"ini-parse", "defini-parse", "parse-defini", "parse", "defini-parse", "parse-defini", "parse-parse"})
+	p.Shape = r.Fork("shape").Pick([]string{"ini-parse", "defini-parse", "parse-defini", "parse", "defini-parse", "parse-defini", "parse-parse", "ini-failparse-parse"})
 	p.Plan = genPlan(r.Fork("plan"), sc.Decl)
 	ois := optInfos(sc.Decl)
 	sr := r.Fork("sources")
@@ -133,7 +136,10 @@ func (propC05) Gen(r *Rng, idx int, tier string) *Scenario {
 			p.Stores = append(p.Stores, Op{Kind: "store", Path: oi.Path, Val: &v})
 		}
 		// environment
-		if o.Env != "" && sr.Chance(1, 2) {
+		if o.Env != "" && envFullOf(sc.Decl, oi) != o.Env && sr.Chance(1, 4) {
+			// only the BARE key is set: it is not this option's variable
+			p.Env0[o.Env] = BStr(envTextFor(sr, o))
+		} else if o.Env != "" && sr.Chance(1, 2) {
 			key := envFullOf(sc.Decl, oi)
 			switch x := sr.Intn(24); {
 			case x == 0 && baseKind(o.Kind) != "bool":
@@ -177,6 +183,28 @@ func (propC05) Gen(r *Rng, idx int, tier string) *Scenario {
 					val = envTextFor(sr, &OptSpec{Kind: o.Kind, Choices: o.Choices})
 				}
 				p.Ini = append(p.Ini, C05Ini{Opt: oi.Path, Section: oi.Section, Key: key, Val: val})
+			}
+		}
+	}
+	// two options of the same slice kind initialised from one slice value
+	if sr.Chance(1, 4) {
+		byKind := map[string][]optInfo{}
+		for _, oi := range ois {
+			if isSliceKind(oi.O.Kind) && oi.O.Kind != "ulist" {
+				byKind[oi.O.Kind] = append(byKind[oi.O.Kind], oi)
+			}
+		}
+		for _, k := range sortedKeys(byKind) {
+			if xs := byKind[k]; len(xs) >= 2 {
+				val := V{L: []V{genStoreScalar(sr, elemKind(k), false), genStoreScalar(sr, elemKind(k), false)}}
+				var keep []Op
+				for _, st := range p.Stores {
+					if st.Path != xs[0].Path && st.Path != xs[1].Path {
+						keep = append(keep, st)
+					}
+				}
+				p.Stores = append(keep, Op{Kind: "store", Path: xs[0].Path, Val: &val, ShareWith: xs[1].Path})
+				break
 			}
 		}
 	}
@@ -281,6 +309,49 @@ func c05Model(oi optInfo, d *DeclSpec, cli map[string][]string, ini map[string][
 	return c05Source{"stored", nil}
 }
 
+// sourceConverts: does every text of the source convert for the option (by the
+// harness's own converter, incl. the choice list)? boundary reports that the
+// answer hinges on an empty text, which is C11's business.
+func sourceConverts(oi optInfo, src c05Source) (ok bool, boundary bool) {
+	k := oi.O.Kind
+	if src.name == "stored" {
+		return true, false
+	}
+	for _, t := range src.texts {
+		if t == "" || (isMapKind(k) && (!strings.Contains(t, ":") || strings.HasSuffix(t, ":") || strings.HasPrefix(t, ":"))) {
+			boundary = true
+		}
+	}
+	var err error
+	if isFuncKind(k) {
+		if !strings.HasPrefix(k, "func()") {
+			ak := k[5:strings.Index(k, ")")]
+			for _, t := range src.texts {
+				if _, e := plainToV(ak, t); e != nil {
+					err = e
+				}
+			}
+		}
+	} else {
+		_, err = modelApply(k, src.texts)
+	}
+	if err == nil && len(oi.O.Choices) > 0 {
+		for _, t := range src.texts {
+			found := false
+			for _, c := range oi.O.Choices {
+				found = found || c == t
+			}
+			if !found {
+				err = fmt.Errorf("not an allowed choice")
+			}
+		}
+	}
+	if err == nil {
+		return true, false
+	}
+	return false, boundary
+}
+
 func (propC05) Judge(sc *Scenario) *Verdict {
 	v := &Verdict{OK: true}
 	p := sc.C05
@@ -288,13 +359,28 @@ func (propC05) Judge(sc *Scenario) *Verdict {
 		return harnessTrouble(v, "C05 scenario without payload")
 	}
 	d := sc.Decl
+	{
+		// scope guard (matters while shrinking): INI entries must address declared
+		// options through their section
+		sect := map[string]string{}
+		for _, oi := range optInfos(d) {
+			sect[oi.Path] = oi.Section
+		}
+		for _, e := range p.Ini {
+			if s, ok := sect[e.Opt]; !ok || s != e.Section {
+				v.NotJudged = "an INI entry addresses an option that is not declared"
+				v.Sig = "C05|undeclared"
+				return v
+			}
+		}
+	}
 	s2 := *sc
 	s2.World.Env = map[string]BStr{}
 	for k, val := range p.Env0 {
 		s2.World.Env[k] = val
 	}
 	s2.Ops = append([]Op{}, p.Stores...)
-	iniOp := Op{Kind: "iniread", Data: BStr(p.iniText()), AsDefaults: p.Shape != "ini-parse"}
+	iniOp := Op{Kind: "iniread", Data: BStr(p.iniText()), AsDefaults: p.Shape != "ini-parse" && p.Shape != "ini-failparse-parse"}
 	parseOp := Op{Kind: "parse", Argv: bstrs(p.Plan.argv())}
 	parseIdx := 0
 	switch p.Shape {
@@ -308,6 +394,14 @@ func (propC05) Judge(sc *Scenario) *Verdict {
 		s2.Ops = append(s2.Ops, parseOp)
 		s2.Ops = append(s2.Ops, p.EnvMid...) // must not matter: ParseArgs has run
 		s2.Ops = append(s2.Ops, iniOp)
+	case "ini-failparse-parse":
+		// INI read, then a ParseArgs that is rejected, then the judged ParseArgs: the
+		// aborted parse must not disturb what the INI established
+		s2.Ops = append(s2.Ops, iniOp)
+		s2.Ops = append(s2.Ops, Op{Kind: "parse", Argv: []BStr{"--no-such-option-zz=1", "---"}})
+		s2.Ops = append(s2.Ops, p.EnvMid...)
+		parseIdx = len(s2.Ops)
+		s2.Ops = append(s2.Ops, parseOp)
 	case "parse-parse":
 		// a reused parser: a first ParseArgs with an empty command line (so every
 		// option is defaulted, none explicitly set), the environment changes, then
@@ -355,6 +449,9 @@ func (propC05) Judge(sc *Scenario) *Verdict {
 	for _, st := range p.Stores {
 		if st.Val != nil {
 			stored[st.Path] = *st.Val
+			if st.ShareWith != "" {
+				stored[st.ShareWith] = *st.Val
+			}
 		}
 	}
 	firstParseBad := ""
@@ -416,6 +513,15 @@ func (propC05) Judge(sc *Scenario) *Verdict {
 		v.NotJudged = "first parse of a reused parser has an unconvertible source"
 		return finish()
 	}
+	if p.Shape == "ini-failparse-parse" {
+		for i := 0; i < parseIdx; i++ {
+			if o.Ops[i].Op == "parse" && (o.Ops[i].Err != "flags.Error" || o.Ops[i].ErrType != "unknown flag") {
+				// it must be rejected in the argument loop, before any default is applied
+				v.NotJudged = "the parse meant to fail on its first token did not (IgnoreUnknown / handler)"
+				return finish()
+			}
+		}
+	}
 	if p.Shape == "parse-parse" {
 		for i := 0; i < parseIdx; i++ {
 			if o.Ops[i].Op == "parse" && o.Ops[i].Err != "" {
@@ -443,21 +549,25 @@ func (propC05) Judge(sc *Scenario) *Verdict {
 	for _, oi := range ois {
 		src := c05Model(oi, d, cli, ini, env)
 		k := oi.O.Kind
-		if p.Shape == "parse-defini" && src.name == "ini" && !isFuncKind(k) {
+		if p.Shape == "parse-defini" && src.name == "ini" {
 			// ParseArgs runs before the INI is read: at that moment the env/default
 			// text is the winning source and must convert
 			early := c05Model(oi, d, cli, nil, env)
-			if early.name != "stored" {
-				emptyText := false
-				for _, t := range early.texts {
-					emptyText = emptyText || t == "" || (isMapKind(k) && (!strings.Contains(t, ":") || strings.HasSuffix(t, ":") || strings.HasPrefix(t, ":")))
-				}
-				if _, err := modelApply(k, early.texts); err != nil && emptyText {
+			if ok, boundary := sourceConverts(oi, early); !ok {
+				if boundary {
 					boundaryOpt = oi.Path
-				} else if err != nil && predictErr == "" {
+				} else if predictErr == "" {
 					predictErr = fmt.Sprintf("%s from %s %q (applied by ParseArgs before the INI was read)", oi.Path, early.name, early.texts)
 				}
 			}
+		}
+		if ok, boundary := sourceConverts(oi, src); !ok {
+			if boundary {
+				boundaryOpt = oi.Path
+			} else if predictErr == "" {
+				predictErr = fmt.Sprintf("%s from %s %q", oi.Path, src.name, src.texts)
+			}
+			continue
 		}
 		if isFuncKind(k) {
 			exps = append(exps, exp{oi, src, ""})
@@ -522,6 +632,36 @@ func (propC05) Judge(sc *Scenario) *Verdict {
 		return finish()
 	}
 	if pr.Err != "" || (ir != nil && ir.Err != "") {
+		// every winning source converts (per the model), yet something was rejected:
+		// is it the command line itself (generator's business) or a source?
+		s3 := s2
+		s3.World.Env = map[string]BStr{}
+		var ops3 []Op
+		for _, op := range s2.Ops {
+			switch op.Kind {
+			case "setenv", "unsetenv", "iniread":
+				continue
+			}
+			ops3 = append(ops3, op)
+		}
+		s3.Ops = ops3
+		tw := Execute(&s3, nil)
+		v.Evals++
+		twOK := tw.HarnessPanic == ""
+		for i := range tw.Ops {
+			if tw.Ops[i].Op == "parse" && i == len(tw.Ops)-1 && (tw.Ops[i].Err != "" || abnormal(&tw.Ops[i]) != "") {
+				twOK = false
+			}
+		}
+		if twOK && p.Shape != "ini-failparse-parse" {
+			bad := pr
+			if pr.Err == "" {
+				bad = ir
+			}
+			v.failAttr("C05", "c05:valid-source-rejected", fmt.Sprintf("the command line alone is accepted and every winning source converts, yet with the environment / INI present the history is rejected: %s/%s %q\nshape=%s env=%v ini=%q argv=%q",
+				bad.Err, bad.ErrType, clip(string(bad.Msg), 200), p.Shape, env, p.iniText(), p.Plan.argv()), map[string]string{"shape": p.Shape})
+			return finish()
+		}
 		v.NotJudged = "history rejected"
 		msg := pr.Msg
 		if pr.Err == "" {
